@@ -942,6 +942,15 @@ func (e *Exec) binop(st *State, op token.Token, a, b Val, pos token.Pos) Val {
 		} else if bi && !ai {
 			a = e.box(st, a, b.GT)
 		}
+		if ai || bi {
+			// comparing two interface values panics when both hold the same uncomparable dynamic type (slice, map, func)
+			dt := e.dynTypeFn()
+			cmp := e.sc.Fun("comparable:dyntype", []string{SInt}, SBool)
+			e.askedComparable = true
+			e.syncImplFacts()
+			bad := And(Not(Eq(a.T, IntLit(0))), Not(Eq(b.T, IntLit(0))), Eq(App(SInt, dt, a.T), App(SInt, dt, b.T)), Not(App(SBool, cmp, App(SInt, dt, a.T))))
+			e.sideOblige(st, "iface-compare", Not(bad), pos)
+		}
 	}
 	if a.T.Sort == SInt && b.T.Sort == "Real" {
 		a = Val{T: App("Real", "to_real", a.T), GT: b.GT}
@@ -1053,6 +1062,27 @@ func (e *Exec) declEvent() {
 // syncImplFacts states, for every interface asked about in an interface-to-interface assertion and every
 // concrete type boxed so far, whether the type implements the interface (decided by go/types).
 func (e *Exec) syncImplFacts() {
+	if e.askedComparable {
+		// comparability of every concrete type boxed so far (decided by go/types)
+		if e.implDone == nil {
+			e.implDone = map[string]bool{}
+		}
+		cmp := e.sc.Fun("comparable:dyntype", []string{SInt}, SBool)
+		for tag := 1; tag <= len(e.sr.tagTypes); tag++ {
+			ct := e.sr.tagTypes[tag]
+			k := fmt.Sprintf("comparable/%d", tag)
+			if ct == nil || e.implDone[k] {
+				continue
+			}
+			e.implDone[k] = true
+			f := App(SBool, cmp, IntLit(int64(tag)))
+			if types.Comparable(ct) {
+				e.sc.Assert(f)
+			} else {
+				e.sc.Assert(Not(f))
+			}
+		}
+	}
 	if len(e.ifaceAsked) == 0 {
 		return
 	}
